@@ -371,6 +371,9 @@ def _build_distmat(rec, scratch):
             d = d.take_dists(op[1], negate=op[2])
         elif k == "drop_invalid":
             d = d.drop_invalid()
+        elif k == "set":
+            if op[1] in d.names and op[2] in d.names:
+                d[op[1], op[2]] = op[3]
         elif k == "deepcopy":
             import copy as _copy
 
@@ -687,6 +690,166 @@ def gen_seq(rng, impl=None):
     if feats or any(o[0] == "feat" for o in ops):
         extra.append("annotated")
     return dict(family="seq", impl=impl, moltype=mt, text=text, name=rng.choice(["s1", "seq-2", "chr 3"]), offset=offset, info=info, features=feats, ops=ops, hclass=hist_class(ops, extra))
+
+
+# --------------------------------------------------------------------------
+# view-STATE directed histories.  The export code re-bases a view from its (start, stop, step, offset) record,
+# so what matters for a round trip is the STATE CLASS the history ends in:
+#   strand (forward / reversed) x stride (|step| = 1 / > 1) x residue ((L-1) % |step| zero / non-zero, L = length of the
+#   exported, truncated parent) x offset (zero / non-zero).
+# gen_seq draws slices with step None 55 % of the time and rc 20 % of the time, so the corner
+# "reversed AND strided AND non-zero residue" is rare there; these generators draw histories out of
+# slice(random start/stop, |step| in 1..4, either sign), rc, slices AFTER rc, annotation offsets.
+# --------------------------------------------------------------------------
+def _directed_slice(rng, cur, allow_neg=True):
+    """a slice of a length-`cur` sequence that is mostly non-empty, with |step| in 1..4"""
+    k = rng.choice([1, 1, 2, 2, 3, 3, 4])
+    neg = allow_neg and rng.random() < 0.3
+    r = rng.random()
+    if r < 0.2:
+        a, b = None, None
+    elif r < 0.9:
+        a = rng.randint(0, max(0, cur // 2))
+        b = rng.randint(min(cur, a + 1), cur)
+        if rng.random() < 0.2:
+            a = None if a == 0 or rng.random() < 0.5 else a - cur  # open / negative index forms of the same bound
+        if rng.random() < 0.2:
+            b = None if b == cur else b - cur if b - cur < 0 else b
+    else:
+        a, b = rng.randint(-cur - 2, cur + 2), rng.randint(-cur - 2, cur + 2)  # anything, incl. empty / out of range
+    if not neg:
+        return ["s", a, b, None if k == 1 and rng.random() < 0.5 else k]
+    # negative step: walk from the upper bound down to the lower bound
+    lo = a if isinstance(a, int) and a >= 0 else 0
+    hi = b if isinstance(b, int) and b >= 0 else cur
+    start = None if hi >= cur and rng.random() < 0.5 else hi - 1
+    stop = None if lo <= 0 else lo - 1
+    return ["s", start, stop, -k]
+
+
+def directed_view_ops(rng, n, nucleic, allow_neg=True, depth=None):
+    ops, cur = [], n
+    depth = depth or rng.choice([1, 2, 2, 3, 3, 4])
+    for i in range(depth):
+        if cur == 0:
+            break
+        if nucleic and rng.random() < (0.45 if i == 0 else 0.3):
+            ops.append(["rc"])
+            continue
+        op = _directed_slice(rng, cur, allow_neg=allow_neg)
+        ops.append(op)
+        cur = len(range(cur)[slice(op[1], op[2], op[3])])
+    return ops
+
+
+def _state_box():
+    """a small deterministic box of histories that ends in every strand x stride x residue x offset class, for both
+    implementations (the first recipes of the `seqstate` family of every run, before the seeded random ones)"""
+    box = []
+    for impl in ("new", "old"):
+        for n, off in ((10, 0), (13, 5)):
+            for k in (2, 3):
+                for ops in (
+                    [["rc"], ["s", None, None, k]],
+                    [["rc"], ["s", 1, None, k]],
+                    [["s", 2, n - 1, None], ["rc"], ["s", None, None, k]],
+                    [["s", None, None, k], ["rc"]],
+                    [["s", None, None, -k]],
+                    [["s", n - 2, 0, -k]],
+                    [["s", 1, n, k]],
+                    [["rc"], ["s", 1, n - 2, None], ["s", None, None, k], ["s", 1, None, None]],
+                ):
+                    box.append((impl, n, off, ops))
+    return box
+
+
+def gen_seqstate(rng, impl=None, index=None):
+    """a stand-alone sequence (either implementation) left in a directed view state; no features, no renames:
+    only string / coordinates / strand / moltype / offset are at stake"""
+    box = _state_box()
+    if index is not None and index < len(box):
+        impl, n, offset, ops = box[index]
+        mt = rng.choice(["dna", "rna"])
+        return dict(family="seq", impl=impl, moltype=mt, text=rtext(rng, mt, n), name="s1", offset=offset, info=None, features=[], ops=[list(o) for o in ops], hclass=hist_class(ops, ["offset"] if offset else []))
+    impl = impl or rng.choice(["new", "new", "old"])
+    mt = rng.choice(["dna", "dna", "dna", "rna", "text", "protein"])
+    n = rng.choice([2, 3, 5, 7, 8, 10, 13, 16, 21, 30]) if rng.random() < 0.6 else rng.randint(1, 30)
+    offset = rng.choice([0, 0, 3, 11, 100])
+    ops = directed_view_ops(rng, n, mt in ("dna", "rna"))
+    if rng.random() < 0.1:
+        ops.insert(rng.randint(0, len(ops)), ["deepcopy"])
+    return dict(family="seq", impl=impl, moltype=mt, text=rtext(rng, mt, n), name=rng.choice(["s1", "seq-2"]), offset=offset, info=None, features=[], ops=ops, hclass=hist_class(ops, ["offset"] if offset else []))
+
+
+def gen_collseqstate(rng):
+    """a member sequence taken out of a collection / alignment (new-style SequenceCollection -> SeqDataView inside;
+    old-style SequenceCollection / Alignment) and then left in a directed view state"""
+    if rng.random() < 0.55:
+        c = gen_newcoll(rng)
+        c["ops"] = [o for o in c["ops"] if o[0] in ("rc",)]
+        c["features"] = []
+        fam, tag = "newcollseq", "from_newcoll"
+    else:
+        c = gen_coll(rng, kind=rng.choice(["Alignment", "SequenceCollection"]))
+        c["ops"] = [o for o in c["ops"] if o[0] in ("rc", "s")]
+        c["features"] = []
+        fam, tag = "collseq", "from_" + c["kind"]
+    row = rng.choice(list(c["seqs"]))
+    nucleic = c["moltype"] in ("dna", "rna")
+    ops = directed_view_ops(rng, max(1, len(c["seqs"][row].replace("-", ""))), nucleic, allow_neg=nucleic or c["moltype"] == "text", depth=rng.choice([1, 2, 2, 3]))
+    c["hclass"] = hist_class(c["ops"], ["offset"] if c.get("offsets") and any(c["offsets"].values()) else [])
+    rec = dict(family=fam, coll=c, row=row, ops=ops, hclass=hist_class(c["ops"] + ops, [tag]))
+    if fam == "newcollseq":
+        rec["via"] = rng.choice(["get_seq", "seqs"])
+    return rec
+
+
+def view_state_class(x):
+    """state class of the built object, read off the live object (not off the recipe). Sequence-like: strand x stride x
+    residue x offset of the view inside; DistanceMatrix: symmetric / asymmetric; likelihood function: whether a parameter
+    sits exactly on 0.0 / on a bound. None if the object has no such state"""
+    cls = type(x).__name__
+    if cls == "DistanceMatrix":
+        import numpy
+
+        arr = numpy.asarray(x.array, dtype=float)
+        return "matrix/" + ("symmetric" if numpy.array_equal(arr, arr.T, equal_nan=True) else "asymmetric")
+    if hasattr(x, "get_param_rules") and hasattr(x, "set_param_rule"):
+        # likelihood function: does a scalar parameter sit on a SPECIAL value (exactly 0.0, exactly on a bound)?
+        tags = set()
+        try:
+            for r in x.get_param_rules():
+                val = r.get("init", r.get("value"))
+                if isinstance(val, (int, float)) and not isinstance(val, bool):
+                    if val == 0:
+                        tags.add("const-at-0" if r.get("is_constant") else "free-at-0")
+                    elif not r.get("is_constant") and (val == r.get("lower") or val == r.get("upper")):
+                        tags.add("free-on-bound")
+        except Exception as e:
+            return f"lf/unreadable:{type(e).__name__}"
+        return "lf/" + ("+".join(sorted(tags)) or "interior")
+    v = getattr(x, "_seq", None)
+    if v is None and hasattr(x, "data") and hasattr(x, "map"):  # Aligned
+        v = getattr(x.data, "_seq", None)
+    if v is None and all(hasattr(x, k) for k in ("start", "stop", "step", "seq_len")):
+        v = x
+    if v is None or not all(hasattr(v, k) for k in ("start", "stop", "step")):
+        return None
+    try:
+        n = len(v)
+        step = int(v.step)
+        if n == 0:
+            return "empty"
+        L = int(v.parent_stop) - int(v.parent_start)
+        off = int(getattr(v, "offset", 0) or 0)
+    except Exception as e:
+        return f"unreadable:{type(e).__name__}"
+    return "/".join([
+        "reversed" if step < 0 else "forward",
+        "stride>1" if abs(step) > 1 else "stride1",
+        "residue!=0" if (L - 1) % abs(step) else "residue0",
+        "offset!=0" if off else "offset0",
+    ])
 
 
 def gen_seqview(rng):
@@ -1019,12 +1182,25 @@ def gen_distmat(rng):
     n = rng.randint(2, 5)
     names = [f"s{i}" for i in range(n)]
     dists = []
-    for a, b in itertools.combinations(names, 2):
-        v = rng.choice([0.0, 0.1, 0.25, 1.5, 2.0])
-        dists.append([a, b, v])
-        dists.append([b, a, v])
-    ops = []
     extra = []
+    # symmetric (what the distance calculators produce) / DIRECTIONAL values ((a,b) != (b,a)) / one direction only
+    # (the constructor fills in the other): a matrix is a full square array, nothing says it is symmetric
+    mode = rng.choice(["symmetric", "symmetric", "directional", "directional", "upper_only"])
+    vals = [0.0, 0.1, 0.25, 1.5, 2.0]
+    for a, b in itertools.combinations(names, 2):
+        v = rng.choice(vals)
+        dists.append([a, b, v])
+        if mode == "symmetric":
+            dists.append([b, a, v])
+        elif mode == "directional":
+            dists.append([b, a, rng.choice([w for w in vals if w != v]) if rng.random() < 0.7 else v])
+    if mode != "symmetric":
+        extra.append(mode)
+    ops = []
+    if rng.random() < 0.3:
+        # one cell re-assigned after construction (only that cell changes)
+        a, b = rng.sample(names, 2)
+        ops.append(["set", a, b, rng.choice([0.75, 3.0, 0.0])])
     if n > 2 and rng.random() < 0.3:
         # one pair without a valid distance (None -> nan)
         a, b = rng.sample(names, 2)
@@ -1176,7 +1352,10 @@ def gen_model(rng):
     return dict(family="model", name=name, kw=kw, ops=[], hclass="named")
 
 
-def gen_lf(rng, optimise=False):
+def gen_lf(rng, optimise=False, boundary=None):
+    """`boundary`: put a parameter on a SPECIAL value before serialising — exactly 0.0 (free or constant), exactly on its
+    lower / upper bound. Such values come out of get_param_rules() as init=0.0 / init=lower and must be re-applied as
+    they are (fitted values never sit there: the optimiser stops near, not on, a bound). None = seeded choice (30 %)."""
     model = rng.choice(["JC69", "F81", "HKY85", "HKY85", "TN93", "GTR", "GN", "BH"])
     names = ["a", "b", "c", "d"][: rng.choice([3, 3, 4])]
     n = rng.choice([12, 18])
@@ -1245,6 +1424,37 @@ def gen_lf(rng, optimise=False):
     if model in ("F81", "JC69") and rng.random() < 0.15:
         rules.append(dict(par_name="length", edge=names[-1], init=0.4, lower=0.01, upper=5.0))
         extra.append("bounded")
+    if boundary is None:
+        boundary = rng.random() < 0.3
+    if boundary:
+        q = rng.random()
+        if has_kappa and not isinstance(boundary, str) and q < 0.3 and not any(r_["par_name"] == "kappa" for r_ in rules) and not time_het:
+            lo, up = rng.choice([(1.0, 5.0), (0.5, 2.0)])
+            rules.append(dict(par_name="kappa", lower=lo, upper=up, **{rng.choice(["init", "value"]): rng.choice([lo, up])}))
+            extra.append("on_bound")
+        elif model != "BH":
+            # a branch length of exactly zero on ONE edge (two zero edges make the alignment impossible: lnL = -inf)
+            rules = [r_ for r_ in rules if r_["par_name"] != "length"]
+            for t_ in ("rescoped",):
+                if t_ in extra and not any(r_.get("edges") for r_ in rules):
+                    extra.remove(t_)
+            e = rng.choice(names)
+            # the same state through the different API routes that lead to it: init= / value= / clamped by upper=0 /
+            # held constant at 0 and then freed again / (constant at 0)
+            how = boundary if isinstance(boundary, str) else rng.choice(["init", "value", "clamp", "free", "const"])
+            if how == "init":
+                rules.append(dict(par_name="length", edge=e, init=0.0, **({} if q < 0.6 else dict(lower=0.0, upper=rng.choice([0.5, 2.0])))))
+            elif how == "value":
+                rules.append(dict(par_name="length", edge=e, value=0.0, **({} if q < 0.6 else dict(lower=0.0, upper=rng.choice([0.5, 2.0])))))
+            elif how == "clamp":
+                rules.append(dict(par_name="length", edge=e, upper=0.0))
+            elif how == "free":
+                rules.append(dict(par_name="length", edge=e, is_constant=True, value=0.0))
+                rules.append(dict(par_name="length", edge=e, is_constant=False))
+            else:
+                rules.append(dict(par_name="length", edge=e, is_constant=True, value=0.0))
+            extra.append("zero_const" if how == "const" else "zero_free")
+            extra.append("via_" + how)
     return dict(family="lf", model=model, kw=kw, tree=tree, aln=aln, alns=(alns if "loci" in extra else None), rules=rules, lf_kw=lf_kw, time_het=time_het, name=rng.choice([None, "my lf"]), optimise=(5 if optimise else 0), ops=[], hclass="+".join(sorted(set(extra + (["optimised"] if optimise else [])))))
 
 
@@ -1324,6 +1534,9 @@ def gen_result(rng, heavy=False):
 # family -> (generator, routes, weight quick, weight thorough)
 FAMILIES = {
     "seq": (gen_seq, ["json", "rich", "pickle", "copy"]),
+    # directed view states (strand x stride x residue x offset), through every route incl. copy.deepcopy and json FILE -> load
+    "seqstate": (gen_seqstate, ["json", "rich", "pickle", "copy", "deepcopy", "file"]),
+    "collseqstate": (gen_collseqstate, ["json", "rich", "pickle", "copy", "deepcopy", "file"]),
     "seqview": (gen_seqview, ["rich", "pickle", "copy"]),
     "coll": (gen_coll, ["json", "rich", "pickle"]),
     "aligned": (gen_aligned, ["json", "rich", "pickle"]),
@@ -1359,7 +1572,7 @@ COVERS = {
     "cogent3.core.moltype": ["moltype"],
     "cogent3.core.alphabet": ["alphabet"],
     "cogent3.core.alignment.Aligned": ["aligned", "coll"],
-    "cogent3.core.sequence": ["seq", "collseq"],
+    "cogent3.core.sequence": ["seq", "seqstate", "collseq", "collseqstate"],
     "cogent3.core.alignment": ["coll"],
     "cogent3.core.tree": ["tree"],
     "cogent3.evolve.substitution_model": ["model"],
@@ -1374,12 +1587,12 @@ COVERS = {
     "cogent3.core.new_alphabet.CharAlphabet": ["newalphabet"],
     "cogent3.core.new_alphabet.KmerAlphabet": ["newalphabet"],
     "cogent3.core.new_alphabet.CodonAlphabet": ["newalphabet"],
-    "cogent3.core.new_sequence.Sequence": ["seq"],
-    "cogent3.core.new_sequence.ProteinSequence": ["seq"],
+    "cogent3.core.new_sequence.Sequence": ["seq", "seqstate"],
+    "cogent3.core.new_sequence.ProteinSequence": ["seq", "seqstate"],
     "cogent3.core.new_sequence.ByteSequence": ["seq"],
     "cogent3.core.new_sequence.ProteinWithStopSequence": ["seq"],
-    "cogent3.core.new_sequence.DnaSequence": ["seq", "newcollseq"],
-    "cogent3.core.new_sequence.RnaSequence": ["seq", "newcollseq"],
+    "cogent3.core.new_sequence.DnaSequence": ["seq", "seqstate", "newcollseq", "collseqstate"],
+    "cogent3.core.new_sequence.RnaSequence": ["seq", "seqstate", "newcollseq", "collseqstate"],
     "cogent3.core.new_alignment.SeqsData": ["seqsdata"],
     "cogent3.core.new_alignment.SequenceCollection": ["newcoll"],
 }
